@@ -96,6 +96,7 @@ class Runner:
         self.conn.handshake()
         # the client handshake draws nothing 32-bit from `random`; keys issued from here on belong to this case
         self.k0 = len(env.keys.issued)
+        self.n_start = len(self.conn.log)
         self.pms = []
         self.wire = []          # every transport.write argument, in order
         self.outs = []
@@ -415,10 +416,109 @@ def run_case(case):
     return res
 
 
+def collect_peer(b, n0):
+    got, bad = [], []
+    for e in b.log[n0:]:
+        if e[0] == "msg":
+            got.append([bytes.fromhex(e[1]), e[2]])
+        elif e[0] in ("close", "lose", "abort", "escaped", "raised"):
+            bad.append(e[:3])
+    return got, bad
+
+
+def run_xconn(group):
+    """SEVERAL real connections (both roles) living in this one process.
+    (1) their send calls are interleaved call by call; every connection's own wire must still be the well-formed frame
+        sequence of its own messages;
+    (2) the wires are cut into segments and the segments of all connections reach their (real, same-process) peers
+        INTERLEAVED; every peer must deliver exactly what its own sender sent.
+    A failure is re-run with the connection ALONE (same calls / same segments): clean alone = state leaks between
+    connections."""
+    rng = random.Random(group.get("seed", 0))
+    members = group["members"]
+    runners = [Runner(m["role"], m.get("options") or {}) for m in members]
+    # (1) interleaved send calls (random merge preserving each connection's own order)
+    pos = [0] * len(members)
+    live = [i for i, m in enumerate(members) if m["ops"]]
+    while live:
+        i = rng.choice(live)
+        runners[i].do(members[i]["ops"][pos[i]])
+        pos[i] += 1
+        if pos[i] >= len(members[i]["ops"]):
+            live.remove(i)
+    for r in runners:
+        r.drain()
+    fails, wires, wants = [], [], []
+    for i, (m, r) in enumerate(zip(members, runners)):
+        # the virtual clock is shared: a timer of this connection may have fired during another connection's call,
+        # so the wire is read from the connection's own transport log, not from the per-call windows
+        wire = b"".join(bytes.fromhex(e[1]) for e in r.conn.log[r.n_start:] if e[0] == "write")
+        expect = [[k, payload_of(p), b] for k, p, b in m["expect"]]
+        opts = m.get("options") or {}
+        events, cur, problems, frames = judge(wire, m["role"], [],
+                                              opts.get("maskClientFrames", True) and not opts.get("maskServerFrames", False))
+        if cur is not None:
+            problems.append("a fragmented message is left open")
+        if events != expect:
+            problems.append("reassembled events differ from what was sent")
+        if problems:
+            alone = run_case(dict(m, e2e=None, drain=True))
+            fails.append({"stage": "send", "member": i, "role": m["role"], "problem": problems[0],
+                          "alone_ok": bool(alone["oracle"] and alone["oracle"]["ok"])})
+        wires.append(wire)
+        wants.append([[p, b] for k, p, b in expect if k == "msg"])
+        hist["xconn_frames"] = hist.get("xconn_frames", 0) + len(frames)
+    res = {"ok": True, "fails": fails, "members": len(members), "segments": 0}
+    if not fails:
+        # (2) interleaved delivery
+        mode = group["mode"]
+        peers, chunkss = [], []
+        for m, wire in zip(members, wires):
+            b = env.connect("server" if m["role"] == "client" else "client", m.get("peer_options") or {})
+            b.handshake()
+            peers.append((b, len(b.log)))
+            chunkss.append(segment(wire, mode, rng))
+        pos = [0] * len(members)
+        live = [i for i, c in enumerate(chunkss) if c]
+        rr = 0
+        while live:
+            if group.get("order") == "round_robin":
+                i = live[rr % len(live)]; rr += 1
+            else:
+                i = rng.choice(live)
+            if group.get("burst"):
+                peers[i][0].feed_burst([chunkss[i][pos[i]]])
+            else:
+                peers[i][0].feed(chunkss[i][pos[i]])
+            pos[i] += 1
+            res["segments"] += 1
+            if pos[i] >= len(chunkss[i]):
+                live.remove(i)
+        env.turn()
+        for i, ((b, n0), m) in enumerate(zip(peers, members)):
+            got, bad = collect_peer(b, n0)
+            st = b.state()
+            b.lost(True)
+            if got != wants[i] or bad or st != "OPEN":
+                peer_role = "server" if m["role"] == "client" else "client"
+                g1, b1, s1 = deliver(peer_role, m.get("peer_options") or {}, chunkss[i])
+                fails.append({"stage": "receive", "member": i, "role": peer_role, "mode": mode, "bad": bad[:3], "state": st,
+                              "got": [(len(p), x) for p, x in got][:8], "want": [(len(p), x) for p, x in wants[i]][:8],
+                              "chunk_lens": [len(c) for c in chunkss[i]][:40],
+                              "alone_ok": g1 == wants[i] and not b1 and s1 == "OPEN"})
+    for r in runners:
+        r.conn.lost(True)
+    res["ok"] = not fails
+    hist["xconn_groups"] = hist.get("xconn_groups", 0) + 1
+    hist["xconn_segments"] = hist.get("xconn_segments", 0) + res["segments"]
+    return res
+
+
 hist = {}
 results = []
+xresults = [run_xconn(g) for g in inp.get("xconn", [])]
 for case in inp["cases"]:
     announce(case)
     results.append(run_case(case))
 
-json.dump({"results": results, "hist": hist, "fw": FW, "protocol_file": P.__file__, "uses_nvx": _aw.USES_NVX}, open(sys.argv[2], "w"))
+json.dump({"results": results, "xconn": xresults, "hist": hist, "fw": FW, "protocol_file": P.__file__, "uses_nvx": _aw.USES_NVX}, open(sys.argv[2], "w"))
